@@ -5,6 +5,7 @@ import (
 	"time"
 
 	"verifharness/core"
+	"verifharness/enc/ev"
 	"verifharness/gen"
 	"verifharness/hist"
 	"verifharness/run"
@@ -47,11 +48,22 @@ func longHistory(r *core.Rng, idx int) (*hist.History, []*hist.Table) {
 	o.MaxEvents = 1
 	o.MaxTables = 2
 	o.NoJSON = true
-	rot := 0
 	if idx%2 == 1 {
-		rot, o.Switch = 1, 1
+		o.Switch = 1
+		return gen.RandomHistory(r, o, 90+r.Intn(40), 1)
 	}
-	return gen.RandomHistory(r, o, 90+r.Intn(40), rot)
+	// every other long history: rows with blobs that make packets larger than
+	// the driver's initial 4096-byte read buffer (and than twice / four times it)
+	o.BlobLens = []int{4100, 4200, 5000, 9000, 17000}
+	b := gen.NewBuilder(r, o)
+	t := b.RandTable(4242, "dbl", "big", 1)
+	t.Cols = append(t.Cols, hist.Column{Name: "v", Type: ev.TVarchar, Meta: 300, Nullable: true},
+		hist.Column{Name: "b", Type: ev.TMediumBlob, Meta: 3, Nullable: true}, hist.Column{Name: "n", Type: ev.TLong})
+	b.Tables = []*hist.Table{t}
+	for i := 0; i < 90+r.Intn(40); i++ {
+		b.Add([]hist.UnitKind{hist.TxXID, hist.TxXID, hist.TxCommit, hist.AutoRows, hist.DDL}[r.Intn(5)])
+	}
+	return b.H, b.Tables
 }
 
 // longScenarios: the stop causes that matter when much is pending, at a few
@@ -405,12 +417,21 @@ func checkC05(c *core.Ctx) {
 		l := h.Build()
 		start := hist.Pos{File: h.FirstFile, Off: 4}
 		exp := hist.Expect(h, l, start)
+		big := false
+		for _, pk := range sim.Plan(l, start) {
+			if len(pk.Bytes) > 4096 {
+				big = true
+			}
+		}
 		for _, scn := range longScenarios(c, hidx, len(sim.Plan(l, start)), len(exp), reps) {
 			n++
 			if !c.Mine(n) {
 				continue
 			}
 			c.Cell("long-history-scenario")
+			if big {
+				c.Cell("long-history-with-packets>4096")
+			}
 			c05Run(c, scn, h, l, tables)
 		}
 	}
